@@ -228,6 +228,10 @@ def check(case) -> CaseResult:
                     if has != crs[f]:
                         res.fail("C13.field_setting_ignored", dict(node=name, field=f, enabled=crs[f], recorded=has, runtime="compiled"))
                         return res
+                lost = sorted(k for k in executed if k >= rows)
+                if lost:
+                    res.fail("C13.executed_step_missing_from_compiled_record", dict(node=name, rows=rows, executed=len(executed), first_missing_seq=lost[0], mode=case["mode"]))
+                    return res
                 for idx in range(rows):
                     if idx in executed or (name == sup and idx < N + 1 and int(st_.seq[idx]) >= 0):
                         if idx not in executed:
